@@ -8,7 +8,7 @@
     PARTIAL in one named respect: "without data races" is a fact of the Go memory model that no
     Gallina model exhibits; the race-detector run is supporting evidence, not a theorem. *)
 From Coq Require Import ZArith Bool List Lia PeanoNat.
-From GoSecs Require Import Alias.Heap Alias.HeapProofs Alias.Once Alias.OnceProofs.
+From GoSecs Require Import Alias.Heap Alias.HeapProofs Alias.Codec Alias.Once Alias.OnceProofs.
 Import ListNotations.
 
 (** For every sequence of API calls and caller writes that avoids the ownership-transferring entry
@@ -44,6 +44,27 @@ Theorem C12_memo_firing_call_returns_fresh_cell : forall st o bi b, inv st ->
     read (st_heap st') m = obs st o 1.
 Proof. exact memo_firing_call_returns_fresh_cell. Qed.
 Print Assumptions C12_memo_firing_call_returns_fresh_cell.
+
+(** The mutator-looking public API (DataMessageCodec.UnmarshalBinary / the exported field
+    DataMessageCodec.Message; DataMessageBuilder.With...) only writes caller-side HANDLES:
+    UnmarshalBinary decodes (copying) into a fresh message and re-points the codec's slot, Build makes
+    a fresh message. With these operations in the sequences too, every observation of every object —
+    in particular of the message a codec wrapped before UnmarshalBinary, and of every copy derived
+    from it before or after — equals its observation at creation. *)
+Theorem C12_codec_noninterference : forall pre post o g,
+  forallb (fun p => negb (c_owned p)) (pre ++ post) = true ->
+  o < length (st_objs (cs_st (crun cinit pre))) ->
+  obs (cs_st (crun cinit (pre ++ post))) o g = obs (cs_st (crun cinit pre)) o g.
+Proof. exact codec_noninterference. Qed.
+Print Assumptions C12_codec_noninterference.
+
+Theorem C12_unmarshal_rebinds_to_fresh : forall cs k cv kd skip hl v,
+  k < length (cs_codecs cs) -> caller_view (cs_st cs) cv = Some v ->
+  let cs' := cstep cs (CUnmarshal k cv kd skip hl) in
+  nth_error (cs_codecs cs') k = Some (Some (length (st_objs (cs_st cs)))) /\
+  length (st_objs (cs_st cs')) = S (length (st_objs (cs_st cs))).
+Proof. exact unmarshal_rebinds_to_fresh. Qed.
+Print Assumptions C12_unmarshal_rebinds_to_fresh.
 
 (** positive control: with DecodeOwned / DecodeOwnedHSMSPayload the same caller write DOES change an
     observation (so the exclusion is necessary and the model can see interference) *)
@@ -96,6 +117,16 @@ Example C12_memo_nonvacuous :
   cell_data (st_heap (run init (pre ++ post))) 3 = [99; 98]%Z /\
   obs (run init (pre ++ post)) 0 1 = [4; 5]%Z /\ obs (run init (pre ++ post)) 1 1 = [4; 5]%Z /\
   obs (run init (pre ++ post)) 2 1 = [4; 5]%Z.
+Proof. cbv zeta. repeat split; reflexivity. Qed.
+
+(* a codec wraps message 0; UnmarshalBinary of another frame re-points it at fresh object 1;
+   message 0 and a copy of it are unchanged, and scribbling on the frame afterwards changes nothing *)
+Example C12_codec_nonvacuous :
+  let pre := [CBase (ONew [4; 5]%Z); CBase (OConstruct [0] true); CCodec (Some 0); CBase (OShare 0)] in
+  let post := [CBase (ONew [9; 9; 7]%Z); CUnmarshal 0 1 KTyped 1 0; CBase (OWrite 1 2 0%Z); CBuild 0] in
+  cs_codecs (crun cinit pre) = [Some 0] /\ cs_codecs (crun cinit (pre ++ post)) = [Some 2] /\
+  obs (cs_st (crun cinit (pre ++ post))) 0 1 = [4; 5]%Z /\ obs (cs_st (crun cinit (pre ++ post))) 1 1 = [4; 5]%Z /\
+  obs (cs_st (crun cinit (pre ++ post))) 2 1 = [9; 7]%Z /\ obs (cs_st (crun cinit (pre ++ post))) 3 1 = [4; 5]%Z.
 Proof. cbv zeta. repeat split; reflexivity. Qed.
 
 Example C12_once_nonvacuous :
